@@ -19,7 +19,7 @@ def run_stdio_script(steps: List[Any], *, chunks: Optional[List[Any]] = None,
                      reactive: Optional[Callable[[ScriptedProcess, bytes], None]] = None,
                      use: str = "stdio_client", env: Optional[Dict[str, str]] = None,
                      init_kwargs: Optional[Dict[str, Any]] = None,
-                     tie_seed: Optional[int] = None) -> Dict[str, Any]:
+                     tie_seed: Optional[int] = None, drain_notifications: bool = True) -> Dict[str, Any]:
     """steps: list of
         ("feed", chunk)            give the child's stdout one more chunk
         ("version", v)             client.set_protocol_version(v)
@@ -64,7 +64,10 @@ def run_stdio_script(steps: List[Any], *, chunks: Optional[List[Any]] = None,
                         pass
 
                 d1 = asyncio.create_task(drain(read, out["read"]), name="drain-read")
-                d2 = asyncio.create_task(drain(client.notifications, out["notes"]), name="drain-notes")
+                # stdio_client() only hands out the main streams: a caller that never looks at
+                # client.notifications is the normal case (drain_notifications=False)
+                d2 = (asyncio.create_task(drain(client.notifications, out["notes"]), name="drain-notes")
+                      if drain_notifications else asyncio.create_task(asyncio.sleep(0), name="vf-noop"))
                 await settle()
                 for st in steps:
                     op = st[0]
